@@ -285,8 +285,13 @@ def run_fileio(which, beh, tmpdir):
         f = open(file, mode)
         opened.append(f)
         return f
+    cwd = None
     if target == 'path':
         tgt = path
+    elif target == 'bare':
+        cwd = os.getcwd()
+        os.chdir(tmpdir)
+        tgt = os.path.basename(path)
     elif target == 'object':
         tgt = sink = io.BytesIO()
     else:
@@ -311,7 +316,10 @@ def run_fileio(which, beh, tmpdir):
             subj.on_error(_Boom(7))
     except AttributeError:
         state['raised'] = True
-    if target == 'path':
+    finally:
+        if cwd is not None:
+            os.chdir(cwd)
+    if target in ('path', 'bare'):
         written = list(open(path, 'rb').read())
     elif target == 'object':
         written = list(sink.getvalue())
